@@ -100,6 +100,9 @@ SIMPLE = [
     (r'^m_thread = new QThread\(\)$', 'SNewThread'),
     (r'^QObject::connect\(qApp, &QCoreApplication::aboutToQuit, m_thread, \[this\]\(\) \{ resetOwnThread\(\); \}\)$',
      'SConnectAboutToQuitReset'),
+    (r'^m_aboutToQuitConnection = QObject::connect\(qApp, &QCoreApplication::aboutToQuit, m_thread, \[this\]\(\) \{ resetOwnThread\(\); \}\)$',
+     'SConnectAboutToQuitResetKept'),
+    (r'^QObject::disconnect\(m_aboutToQuitConnection\)$', 'SDisconnectAboutToQuit'),
     (r'^QObject::connect\(m_thread, &QThread::finished, m_thread, &QThread::deleteLater\)$',
      'SConnectFinishedDeleteThread'),
     (r'^m_worker = new Worker\( ?this ?\)$', 'SNewWorker'),
@@ -198,6 +201,7 @@ def generate():
     need(re.search(r'QAtomicInt m_pendingCount;', s), 'member m_pendingCount')
     need(re.search(r'QMutex m_mutex;', s), 'member m_mutex (plain, non-recursive)')
     need(re.search(r'Worker \*m_worker = nullptr;', s), 'member m_worker')
+    need(re.search(r'QPointer<QThread> m_thread;', s), 'member m_thread (QPointer)')
     # the process-exit path: function-local static singleton destroyed at exit
     lg = strip_comments(rd('logger.cpp'))
     inst = re.sub(r'\s+', ' ', fn_body(lg, 'Logger::instance'))
